@@ -644,7 +644,7 @@ CORPUS.append({"id": "B-unparse-roundtrip-every-module", "kind": "benign", "prop
 CORPUS.append({"id": "B-shift-all-line-numbers", "kind": "benign", "props": ALL_PROPS, "rule": None, "edits": [], "transform": "shift-lines"})
 CORPUS.append({"id": "B-rename-every-local-suffix", "kind": "benign", "props": ALL_PROPS, "rule": None, "edits": [], "transform": "rename-locals"})
 CORPUS.append({"id": "B-rename-every-local-opaque", "kind": "benign", "props": ALL_PROPS, "rule": None, "edits": [], "transform": "rename-opaque"})
-for _k in ("swap-if-else", "flip-compare", "sort-kwargs", "temp-return", "drop-else-after-jump", "expand-augassign", "split-and", "add-logging", "annotate-assign"):
+for _k in ("swap-if-else", "flip-compare", "sort-kwargs", "temp-return", "drop-else-after-jump", "expand-augassign", "split-and", "add-logging", "annotate-assign", "collect-kwargs"):
     CORPUS.append({"id": f"B-refactor-{_k}", "kind": "benign", "props": ALL_PROPS, "rule": None, "edits": [], "transform": _k})
 
 
